@@ -26,7 +26,7 @@ import glob, hashlib, json, os, pickle, re, subprocess, sys
 VERIF = os.path.dirname(os.path.dirname(os.path.abspath(__file__)))
 INC = os.path.join(VERIF, "_cache", "inc")
 CLANG = "clang++-14"
-VERSION = "15"          # bump to invalidate the per-file cache
+VERSION = "17"          # bump to invalidate the per-file cache
 
 ACCESSORS = {"operator[]", "at", "data", "begin", "end", "front", "back", "rbegin", "rend", "operator*", "operator->", "get", "cbegin", "cend", "c_str", "size", "empty"}
 PASS = {"ParenExpr", "MaterializeTemporaryExpr", "ExprWithCleanups", "CXXBindTemporaryExpr", "ConstantExpr", "ConditionalOperator", "CXXStaticCastExpr",
@@ -131,6 +131,54 @@ def parse_roots(txt):
     return roots
 
 
+def ptr_kind(t):
+    """(kind, pointeeConst) when a declared type is a raw pointer, a reference, or a std smart pointer; else None.
+    const_iterator members count as pointers to const, iterator members as pointers to non-const."""
+    t0 = t.strip()
+    core = re.sub(r"(\s*\[[^\]]*\])+$", "", t0)
+    m = re.search(r"\b(shared_ptr|unique_ptr|weak_ptr)\s*<(.*)>", core)
+    if m:
+        inner = m.group(2).strip()
+        return ("smart", inner.startswith("const ") or inner.endswith(" const"))
+    if re.search(r"::const_iterator\b", core):
+        return ("iterator", True)
+    if re.search(r"::iterator\b", core):
+        return ("iterator", False)
+    if core.endswith("&") or core.endswith("&&"):
+        b = core.rstrip("&").strip()
+        return ("reference", b.startswith("const ") or b.endswith(" const"))
+    if "(*" in core:
+        return None                    # function pointer: no data behind it
+    c2 = re.sub(r"\s*const$", "", core).strip()
+    if c2.endswith("*"):
+        b = c2[:-1].strip()
+        return ("pointer", b.startswith("const ") or b.endswith(" const"))
+    return None
+
+
+def init_kind(var):
+    """how a static local is initialised: 'constexpr', 'literal' (no call / construction in the initialiser: constant
+    initialisation), 'dynamic' (runs code on first pass: C++11 guarded initialisation), 'none' (zero-initialised)"""
+    if var.get("constexpr"):
+        return "constexpr"
+    inner = [c for c in var.get("inner", []) if isinstance(c, dict)]
+    if not inner:
+        return "none"
+    dyn = [False]
+    def rec(n):
+        if isinstance(n, dict):
+            k = n.get("kind")
+            if k in ("CallExpr", "CXXMemberCallExpr", "CXXOperatorCallExpr", "CXXNewExpr", "LambdaExpr"):
+                dyn[0] = True
+            if k in ("CXXConstructExpr", "CXXTemporaryObjectExpr"):
+                dyn[0] = True
+            for c in n.get("inner", []):
+                rec(c)
+    for c in inner:
+        rec(c)
+    return "dynamic" if dyn[0] else "literal"
+
+
 # ---------------------------------------------------------------------------------------------------------------
 # per translation unit
 # ---------------------------------------------------------------------------------------------------------------
@@ -142,6 +190,8 @@ class TU:
         self.locinfo = {}       # name -> dict(kind, isConst, constexpr, file)
         self.funcs = {}         # key -> record (only functions with a body)
         self.constcasts = []
+        self.ptrfields = {}     # id -> (q, type, pointeeConst): pointer / reference / smart-pointer data members
+        self.ptrwrites = []     # (function, member, how): writes through pointer members inside const member functions
         self.curfile = ""
         for r in roots:
             self.index(r, [], None)
@@ -198,6 +248,9 @@ class TU:
         if k == "FieldDecl":
             q = "::".join(ctx + [name or "?"])
             self.decl[nid] = dict(kind="field", q=q, type=qt(n), mutable=bool(n.get("mutable")))
+            pk = ptr_kind(qt(n))
+            if pk:
+                self.ptrfields[nid] = (q, qt(n), pk[1], pk[0], os.path.basename(self.curfile))
             if n.get("mutable"):
                 self.locs[nid] = q
                 self.locinfo[q] = dict(kind="mutableMember", isConst=False, constexpr=False, file=os.path.basename(self.curfile))
@@ -211,7 +264,9 @@ class TU:
                     fq = self.decl[func]["q"]
                     q = fq + "()::" + (name or "?")
                     self.locs[nid] = q
-                    self.locinfo[q] = dict(kind="staticLocal", isConst=is_top_const(t) or bool(n.get("constexpr")), constexpr=bool(n.get("constexpr")), file=os.path.basename(self.curfile), type=t)
+                    pk = ptr_kind(t)
+                    self.locinfo[q] = dict(kind="staticLocal", isConst=is_top_const(t) or bool(n.get("constexpr")), constexpr=bool(n.get("constexpr")), file=os.path.basename(self.curfile), type=t,
+                                           init=init_kind(n), mutablePointee=bool(pk and not pk[1]), fn=fq)
             else:
                 pctx = ctx
                 if pid and pid in self.decl and self.decl[pid]["kind"] == "record":
@@ -446,6 +501,15 @@ class TU:
                 self.cur["reads"].add(loc); self.add_write(loc, guards)
             else:
                 self.cur["reads"].add(loc)
+        if k in ("CXXConstructExpr", "CXXTemporaryObjectExpr"):
+            # a constructor of a library class: it cannot reach `this` of a const object, but it can touch static state
+            t = re.sub(r"^const\s+|\s+const$", "", qt(n).strip())
+            t = strip_targs(t).replace("GeographicLib::", "")
+            ct = (n.get("ctorType") or {}).get("qualType", "")
+            if t and ct and re.fullmatch(r"[\w:]+", t):
+                self.cur["calls"].append((t + "::" + t.split("::")[-1] + " :: " + ct, [self.guard_sig(g) for g in guards], "ctor"))
+        if self.cur.get("const") and not self.cur.get("static") and self.cur.get("method"):
+            self.ptr_write_check(n, parents)
         if k in ("CallExpr", "CXXMemberCallExpr", "CXXOperatorCallExpr", "CXXConstructExpr", "CXXTemporaryObjectExpr", "CXXNewExpr"):
             callee = self.callee_id(n)
             if callee and callee in self.decl and self.decl[callee]["kind"] == "func":
@@ -459,10 +523,113 @@ class TU:
         for c in n.get("inner", []):
             self.walk(c, parents + [n], guards)
 
+    # -- writes through pointer / reference / smart-pointer members inside const member functions ---------------------
+    def strip(self, n):
+        while isinstance(n, dict) and n.get("kind") in ("ImplicitCastExpr", "ParenExpr", "CStyleCastExpr", "CXXStaticCastExpr", "CXXReinterpretCastExpr",
+                                                         "CXXConstCastExpr", "CXXFunctionalCastExpr", "MaterializeTemporaryExpr", "ExprWithCleanups", "CXXBindTemporaryExpr"):
+            n = (n.get("inner") or [None])[0]
+        return n
+
+    def ptr_base(self, n, deref):
+        """the pointer member of `this` through which the lvalue `n` is reached (after a dereference), or None"""
+        for _ in range(40):
+            n = self.strip(n)
+            if not isinstance(n, dict):
+                return None
+            k = n.get("kind"); inner = n.get("inner") or []
+            if k == "MemberExpr":
+                d = self.decl.get(n.get("referencedMemberDecl"))
+                base = self.strip(inner[0]) if inner else None
+                if d and d["kind"] == "field":
+                    if isinstance(base, dict) and base.get("kind") == "CXXThisExpr":
+                        pf = self.ptrfields.get(n.get("referencedMemberDecl"))
+                        if pf and (deref or pf[3] == "reference"):
+                            return pf[0]
+                        return None
+                    deref = deref or bool(n.get("isArrow")); n = base; continue
+                if d and d["kind"] == "func":
+                    deref = deref or bool(n.get("isArrow")); n = base; continue
+                deref = deref or bool(n.get("isArrow")); n = base; continue
+            if k == "ArraySubscriptExpr":
+                b = self.strip(inner[0]) if inner else None
+                tb = qt(b) if isinstance(b, dict) else ""
+                if "*" in tb and "[" not in tb:
+                    deref = True
+                n = b; continue
+            if k == "UnaryOperator":
+                if n.get("opcode") == "*":
+                    deref = True
+                n = inner[0] if inner else None; continue
+            if k == "BinaryOperator" and n.get("opcode") in ("+", "-", ","):
+                n = inner[0] if n.get("opcode") != "," else inner[-1]; continue
+            if k == "CXXOperatorCallExpr":
+                nm, _, _ = self.callee_info(n)
+                obj = inner[1] if len(inner) > 1 else None
+                if nm in ("operator->", "operator*", "operator[]"):
+                    ot = qt(self.strip(obj)) if isinstance(self.strip(obj), dict) else ""
+                    if re.search(r"shared_ptr|unique_ptr|iterator|\*", ot):
+                        deref = True
+                n = obj; continue
+            if k == "CXXMemberCallExpr":
+                cal = self.strip(inner[0]) if inner else None
+                if isinstance(cal, dict) and cal.get("kind") == "MemberExpr":
+                    if cal.get("name") in ("get", "data", "begin", "end") and ("*" in qt(n) or "iterator" in qt(n)):
+                        b = self.strip((cal.get("inner") or [None])[0])
+                        tb = qt(b) if isinstance(b, dict) else ""
+                        if re.search(r"shared_ptr|unique_ptr", tb):
+                            deref = True
+                    n = cal; continue
+                return None
+            return None
+        return None
+
+    def ptr_write_check(self, n, parents):
+        k = n.get("kind"); inner = n.get("inner") or []
+        how = None; target = None
+        if (k == "BinaryOperator" and n.get("opcode") == "=") or k == "CompoundAssignOperator":
+            how, target = "assign", (inner[0] if inner else None)
+        elif k == "UnaryOperator" and n.get("opcode") in ("++", "--"):
+            how, target = "increment", (inner[0] if inner else None)
+        elif k == "CXXOperatorCallExpr":
+            nm, ftype, isconst = self.callee_info(n)
+            if nm in ("operator=", "operator+=", "operator-=", "operator*=", "operator/=", "operator++", "operator--") and len(inner) > 1:
+                how, target = "assign", inner[1]
+        elif k == "CXXMemberCallExpr":
+            cal = self.strip(inner[0]) if inner else None
+            if isinstance(cal, dict) and cal.get("kind") == "MemberExpr":
+                d = self.decl.get(cal.get("referencedMemberDecl"))
+                obj = (cal.get("inner") or [None])[0]
+                so = self.strip(obj)
+                ot = qt(so) if isinstance(so, dict) else ""
+                nonconst = False
+                if d and d["kind"] == "func":
+                    nonconst = not (d["const"] or d["static"])
+                elif qt(cal) == "<bound member function type>":
+                    nonconst = not (ot.startswith("const ") or ot.endswith(" const")) and cal.get("name") not in ACCESSORS
+                if nonconst:
+                    f = self.ptr_base(obj, bool(cal.get("isArrow")))
+                    if f:
+                        self.ptrwrites.append((self.cur["q"], f, "non-const call " + str(cal.get("name"))))
+            # pointer members handed to a function that takes a pointer / reference to non-const
+        if k in ("CallExpr", "CXXMemberCallExpr"):
+            for i, a in enumerate(inner[1:], 1):
+                sa = self.strip(a)
+                if not isinstance(sa, dict):
+                    continue
+                ta = qt(a)
+                if ("*" in ta or "iterator" in ta) and not const_target(ta):
+                    f = self.ptr_base(sa, True)
+                    if f and self.arg_use(n, a, inner, 1) == "w":
+                        self.ptrwrites.append((self.cur["q"], f, "passed as non-const pointer"))
+        if how and target is not None:
+            f = self.ptr_base(target, False)
+            if f:
+                self.ptrwrites.append((self.cur["q"], f, how))
+
     def callee_id(self, n):
         k = n.get("kind")
         if k in ("CXXConstructExpr", "CXXTemporaryObjectExpr"):
-            return None               # constructors of other classes: they cannot reach `this` of a const object
+            return None               # resolved by name + signature in ctor_keys (no declaration id in the JSON dump)
         inner = n.get("inner", [])
         if not inner:
             return None
@@ -695,7 +862,7 @@ def dump_one(args):
         if r.returncode != 0 or not r.stdout.strip():
             return dict(error=f"{os.path.basename(src)}: clang failed: {r.stderr[-400:]}")
         tu = TU(parse_roots(r.stdout), src)
-    out = dict(src=os.path.basename(src), locinfo=tu.locinfo, constcasts=tu.constcasts,
+    out = dict(src=os.path.basename(src), locinfo=tu.locinfo, constcasts=tu.constcasts, ptrfields=sorted(set(tu.ptrfields.values())), ptrwrites=sorted(set(tu.ptrwrites)),
                funcs={k: dict(key=v["key"], q=v["q"], type=v["type"], cls=v["cls"], static=v["static"], const=v["const"], ctor=v["ctor"], method=v["method"], access=v["access"],
                               reads=sorted(v["reads"]), writes=dict(v["writes"]), calls=v["calls"], returns=sorted(v["returns"]), file=v["file"])
                       for k, v in tu.funcs.items()},
@@ -736,6 +903,19 @@ def analyse(repo):
     srcs = sorted(glob.glob(os.path.join(repo, "src", "*.cpp")))
     if not srcs:
         raise ExtractError("no sources under " + repo)
+    # one more unit that includes EVERY public header (header-only classes such as NearestNeighbor, SphericalHarmonic2 are
+    # reached by no source file) and instantiates the class templates, so that their members and bodies are in the AST
+    hdrs = sorted(os.path.basename(p) for p in glob.glob(os.path.join(repo, "include/GeographicLib/*.hpp")))
+    allh = "".join(f"#include <GeographicLib/{h}>\n" for h in hdrs)
+    allh += ("namespace GeographicLib {\n  struct GvAllHeadersDist { double operator()(const int& a, const int& b) const { return a < b ? b - a : a - b; } };\n"
+             "  template class NearestNeighbor<double, int, GvAllHeadersDist>;\n  template class Accumulator<double>;\n"
+             "  template class PolygonAreaT<Geodesic>;\n  template class PolygonAreaT<GeodesicExact>;\n  template class PolygonAreaT<Rhumb>;\n}\n")
+    allp = os.path.join(cachedir, "gv_allheaders.cpp")
+    if not os.path.exists(allp) or open(allp).read() != allh:
+        with open(allp + f".{os.getpid()}.tmp", "w") as f:
+            f.write(allh)
+        os.replace(allp + f".{os.getpid()}.tmp", allp)
+    srcs.append(allp)
     h = hashlib.sha256()
     for p in sorted(glob.glob(os.path.join(repo, "include/GeographicLib/*.h*")) + glob.glob(os.path.join(repo, "src/*.h*"))):
         h.update(os.path.basename(p).encode()); h.update(open(p, "rb").read())
@@ -751,9 +931,11 @@ def analyse(repo):
     except OSError:
         pass
     locinfo, funcs, constcasts, decls = {}, {}, [], {}
+    ptrfields, ptrwrites = set(), set()
     for r in res:
         if "error" in r:
             raise ExtractError(r["error"])
+        ptrfields |= set(map(tuple, r.get("ptrfields", []))); ptrwrites |= set(map(tuple, r.get("ptrwrites", [])))
         for l, i in r["locinfo"].items():
             if l in locinfo:
                 i = dict(i); i["isConst"] = i["isConst"] or locinfo[l]["isConst"]; i["constexpr"] = i["constexpr"] or locinfo[l]["constexpr"]
@@ -794,6 +976,11 @@ def analyse(repo):
                 if cf_ is None:
                     continue
                 crd, cwr = eff[callee]
+                if use == "ctor":
+                    # a constructor of another object: its writes to (mutable) members go to the object under construction, which
+                    # is not shared yet; what it does to variables of static storage is kept
+                    crd = {l for l in crd if locinfo.get(l, {}).get("kind") != "mutableMember"}
+                    cwr = {l: at for l, at in cwr.items() if locinfo.get(l, {}).get("kind") != "mutableMember"}
                 if not crd <= rd:
                     rd |= crd; changed = True
                 for l, at in list(cwr.items()):
@@ -824,7 +1011,79 @@ def analyse(repo):
     # functions that are declared const/static but whose body was not found anywhere (pure declarations): listed for the record
     defined = {f["q"] + " :: " + f["type"] for f in funcs.values()}
     undefined = sorted(d[0] for kk, d in decls.items() if kk not in defined and d[5] and (d[3] or d[4]))
-    return dict(locations=locinfo, functions=table, constcasts=sorted(set(constcasts)), undefined=undefined, nfuncs=len(funcs))
+    # every function of any kind (constructors, non-const members, free functions included) that writes a variable of static
+    # storage duration, directly or through its callees; and the static state each class's constructors touch
+    statics = {l for l, i in locinfo.items() if i["kind"] != "mutableMember" and not i["isConst"] and not i["constexpr"]}
+    static_writers, ctor_statics = [], {}
+    for k, f in funcs.items():
+        rd, wr = eff[k]
+        ws = sorted(l for l in wr if l in statics); rs = sorted(l for l in rd if l in statics)
+        if ws:
+            static_writers.append((f["q"], ws))
+        if f["ctor"] and (ws or rs):
+            c = strip_targs(f["cls"])
+            o = ctor_statics.setdefault(c, (set(), set()))
+            o[0].update(rs); o[1].update(ws)
+    return dict(locations=locinfo, functions=table, constcasts=sorted(set(constcasts)), undefined=undefined, nfuncs=len(funcs),
+                ptrfields=sorted(ptrfields), ptrwrites=sorted(ptrwrites), static_writers=sorted(static_writers),
+                ctor_statics=sorted((c, sorted(v[0]), sorted(v[1])) for c, v in ctor_statics.items()),
+                textscan=text_scan(repo), headers=hdrs, units=[os.path.basename(x) for x in srcs])
+
+
+def strip_comments(txt):
+    """remove comments, string and character literals (kept as empty literals)"""
+    out, i, n = [], 0, len(txt)
+    while i < n:
+        c = txt[i]
+        if txt.startswith("//", i):
+            j = txt.find("\n", i); j = n if j < 0 else j
+            i = j; continue
+        if txt.startswith("/*", i):
+            j = txt.find("*/", i + 2); j = n - 2 if j < 0 else j
+            out.append(" "); i = j + 2; continue
+        if c == '"' or c == "'":
+            j = i + 1
+            while j < n and txt[j] != c:
+                j += 2 if txt[j] == "\\" else 1
+            out.append(c + c); i = j + 1; continue
+        out.append(c); i += 1
+    return "".join(out)
+
+
+def text_scan(repo):
+    """independent of clang: the declarators that follow the keyword `mutable`, and the occurrences of `const_cast`, in every
+    header and source file of the library (include/GeographicLib/*, src/*), comments and literals removed"""
+    muts, casts, nfiles = [], [], 0
+    files = sorted(glob.glob(os.path.join(repo, "include/GeographicLib/*.h*")) + glob.glob(os.path.join(repo, "src/*.cpp")) + glob.glob(os.path.join(repo, "src/*.h*")))
+    for p in files:
+        nfiles += 1
+        t = strip_comments(open(p, errors="replace").read())
+        b = os.path.basename(p)
+        for m in re.finditer(r"\bconst_cast\b", t):
+            casts.append(b)
+        for m in re.finditer(r"\bmutable\b", t):
+            rest = t[m.end():]
+            if re.match(r"\s*(\{|->|noexcept)", rest):
+                muts.append((b, "<lambda>")); continue
+            decl = rest[:rest.find(";")] if ";" in rest else rest
+            parts, d, cur = [], 0, ""
+            for ch in decl:
+                if ch in "<([{":
+                    d += 1
+                elif ch in ">)]}":
+                    d -= 1
+                if ch == "," and d == 0:
+                    parts.append(cur); cur = ""
+                else:
+                    cur += ch
+            parts.append(cur)
+            for q in parts:
+                q = re.sub(r"=.*$", "", q, flags=re.S)
+                q = re.sub(r"(\s*\[[^\]]*\])+\s*$", "", q.strip())
+                q = re.sub(r"\{.*\}\s*$", "", q, flags=re.S).strip()
+                mm = re.search(r"([A-Za-z_]\w*)$", q)
+                muts.append((b, mm.group(1) if mm else "<unparsed>"))
+    return dict(mutable=sorted(muts), const_cast=sorted(casts), nfiles=nfiles)
 
 
 if __name__ == "__main__":
